@@ -278,6 +278,7 @@ class Interp:
         self.prog = prog
         self.K = K
         self.K_ret = 3
+        self.no_join_bodies = set()
         self.max_depth = max_depth
         self.infos = {}
         self.nsym = 0
@@ -299,6 +300,7 @@ class Interp:
         self.assume_no_overflow_checks = False
         self.extra_models = {}
         self.addr_syms = {}
+        self.discr_syms = {}
         self.type_invariants = {}
         self.str_boundaries = {}
 
@@ -1079,6 +1081,7 @@ class Interp:
                         r = IntV(Aff.const(ds[0]), (64, True))
                     else:
                         r = self.fresh_int(st, "discr", (64, True), min(ds), max(ds))
+                        self.discr_syms[r.aff.t[0][0]] = (place, v.path, frozenset(v.variants))
                     r.origin = ("discr", place, v.path)
                     return r
             return self.fresh_int(st, "discr", (64, True))
@@ -1197,6 +1200,29 @@ class Interp:
         self.imprecise.append("terminator %s in %s" % (k, ctx.body["path"]))
         return []
 
+    def refine_discr(self, st):
+        """narrow enum variant sets whose discriminant symbol has been constrained"""
+        if not self.discr_syms:
+            return
+        for sym, (place, path, orig) in list(self.discr_syms.items()):
+            b = st.bounds.get(sym)
+            if b is None:
+                continue
+            ev = self.read(st, place)
+            if not isinstance(ev, EnumV) or ev.path != path or not set(ev.variants) <= orig or len(ev.variants) < 2:
+                continue
+            lo, hi = b
+            ex = st.excl.get(sym, ())
+            keep = {}
+            for vi, p in ev.variants.items():
+                d = self.prog.discr_of_variant(path, vi)
+                if d is None:
+                    d = vi
+                if lo <= d <= hi and d not in ex:
+                    keep[vi] = p
+            if keep and len(keep) < len(ev.variants):
+                self.write(st, place, EnumV(ev.path, keep, ev.ty))
+
     def is_len_sym(self, s):
         inf = self.syminfo.get(s)
         if inf is not None and inf[0] == "len":
@@ -1247,12 +1273,14 @@ class Interp:
                 for s3 in assume(s2, v.cond, bool(val)):
                     s3.add_eq(v.aff, Aff.const(val))
                     if not s3.dead:
+                        self.refine_discr(s3)
                         out.append((tg, s3))
             if len(arms) == 1:
                 s2 = st.copy()
                 for s3 in assume(s2, v.cond, not bool(arms[0][0])):
                     s3.add_eq(v.aff, Aff.const(1 - arms[0][0]))
                     if not s3.dead:
+                        self.refine_discr(s3)
                         out.append((t["otherwise"], s3))
             elif len(arms) == 0:
                 out.append((t["otherwise"], st))
@@ -1418,14 +1446,19 @@ class Interp:
             for s2, rv in outs:
                 for key in [k for k in s2.cells if k[0] == fid]:
                     del s2.cells[key]
-        if len(outs) > self.K_ret:
+        if len(outs) > self.K_ret and body["id"] not in self.no_join_bodies:
             outs = self.join_returns(outs, fid)
         return outs
 
     def join_returns(self, outs, fid):
         """merge return states, keeping apart returns of different shape
         (top-level variant / nested variant / constant value)"""
-        def shape(v, d=0):
+        def shape(v, d=0, st=None):
+            if isinstance(v, IntV) and v.ty is not None and v.ty[0] == 1 and v.cond is not None and st is not None:
+                if holds(st, v.cond, True):
+                    return ("c", 1)
+                if holds(st, v.cond, False):
+                    return ("c", 0)
             if isinstance(v, EnumV):
                 ks = tuple(sorted(v.variants))
                 if len(ks) == 1 and d < 2:
@@ -1437,7 +1470,7 @@ class Interp:
             return None
         groups = {}
         for s, rv in outs:
-            groups.setdefault(shape(rv), []).append((s, rv))
+            groups.setdefault(shape(rv, 0, s), []).append((s, rv))
         res = []
         key = ("ret", len(fid))
         for g in groups.values():
